@@ -3,6 +3,7 @@ import Rare.Proofs.C16Seam
 import Rare.Proofs.C16Dissect
 import Rare.Proofs.C16Special
 import Rare.Proofs.C16Src
+import Rare.Proofs.C16Key
 import Rare.Gen.C16
 /-!
 Property C16: the JSON views `{.}`, `{#}`, `{.#}` of a match are valid, faithful and deterministic.
@@ -1037,5 +1038,144 @@ example : C12.compileEx (lit "%{a} %{a}") false = .error .conflict ∧
   exact ⟨by rfl, by decide +kernel⟩
 example : (getMatch [0, 7, 0, 3, 4, 7] (lit "007 x\ny") 2).toOption = some (lit "x\ny") ∧
     (C02.getMatch (lit "007 x\ny") [0, 7, 0, 3, 4, 7] 2).toOption = some (lit "x\ny") := by decide +kernel
+
+/-! ### round 4b: the view as an aggregation key – one line, one array element, a complete invariant -/
+
+/-- **No control byte in a view** – whatever bytes the groups captured and whatever the group names are: every
+byte of the text is ≥ 0x20.  So the text is ONE line (no LF / CR inside a key that a line-oriented consumer reads
+back), has no tab (the column separator of `--csv`-style outputs) and no NUL – rare's `ArraySeparator`, which
+the aggregators use to split a key into its parts.  The same for the emulated views of `rare expression` and for
+`MarshalStringMapInferred`. -/
+theorem view_text_no_control_bytes :
+    (∀ (named numbered : Bool) (order : List (Bytes × Int)) (indices : List Int) (line out : Bytes),
+      GoTyped order indices → json named numbered order indices line = .ok out → ∀ b ∈ out, 0x20 ≤ b) ∧
+    (∀ (texts : List Bytes) (order : List (Bytes × Bytes)), ∀ b ∈ buildSpecialKeyJson texts order, 0x20 ≤ b) ∧
+    (∀ (order : List (Bytes × Bytes)), ∀ b ∈ marshalStringMap order, 0x20 ≤ b) := by
+  have conv : ∀ t : Bytes, printable t = true → ∀ b ∈ t, 0x20 ≤ b := by
+    intro t h b hb
+    simp only [printable, List.all_eq_true, decide_eq_true_eq] at h
+    exact h b hb
+  refine ⟨?_, ?_, ?_⟩
+  · intro named numbered order indices line out hty h
+    rw [json_ok_text named numbered order indices line out hty h]
+    exact conv _ (objText_printable inferredR valueText_printable _)
+  · intro texts order
+    rw [special_text]
+    exact conv _ (objText_printable stringR stringText_printable _)
+  · intro order
+    rw [marshal_text]
+    exact conv _ (objText_printable stringR stringText_printable _)
+
+/-- **A view survives rare's array convention and the printing of `rare expression`.**  For every view text
+`out`: `smartFormatResult` (which rewrites any result containing the array separator as `[a, b, …]`) prints it
+unchanged; split at the separator it is one element; and placed anywhere in an array (`MakeArray`) among other
+elements without control bytes – other views, for instance – the split gives back exactly the elements.  So
+`{.}` can be a part of a multi-part aggregation key (`{.}` NUL `{1}`) without the parts shifting. -/
+theorem view_survives_arrays_and_printing (named numbered : Bool) (order : List (Bytes × Int)) (indices : List Int)
+    (line out : Bytes) (hty : GoTyped order indices) (h : json named numbered order indices line = .ok out) :
+    smartFormatResult out = out ∧ splitSep arraySeparator out = [out] ∧
+    ∀ before after : List Bytes, (∀ x ∈ before ++ after, ∀ b ∈ x, 0x20 ≤ b) →
+      splitSep arraySeparator (makeArray (before ++ out :: after)) = before ++ out :: after := by
+  have hp : printable out = true := by
+    rw [json_ok_text named numbered order indices line out hty h]
+    exact objText_printable inferredR valueText_printable _
+  refine ⟨smartFormat_of_printable out hp, splitSep_not_mem _ out (not_mem_of_printable out hp), ?_⟩
+  intro before after hx
+  have hall : ∀ x ∈ before ++ out :: after, printable x = true := by
+    intro x hm
+    rcases List.mem_append.mp hm with hm | hm
+    · simp only [printable, List.all_eq_true, decide_eq_true_eq]
+      exact hx x (List.mem_append_left _ hm)
+    · rcases List.mem_cons.mp hm with rfl | hm
+      · exact hp
+      · simp only [printable, List.all_eq_true, decide_eq_true_eq]
+        exact hx x (List.mem_append_right _ hm)
+  cases before with
+  | nil => exact split_makeArray out after hall
+  | cons b bs => exact split_makeArray b (bs ++ out :: after) hall
+
+/-- **What `canonVal` forgets**: two captures have the same canonical form iff they are the same bytes or two
+spellings (ASCII letter case) of the same boolean word. -/
+theorem canon_forgets_only_bool_case (a b : Bytes) :
+    canonVal a = canonVal b ↔
+      a = b ∨ (a ∈ spellings litTrue ∧ b ∈ spellings litTrue) ∨ (a ∈ spellings litFalse ∧ b ∈ spellings litFalse) :=
+  canonVal_eq_iff a b
+
+/-- **The value text determines the capture** (up to the case of `true`/`false`): `WriteInferred` writes the same
+text after the key for two captures iff their canonical forms agree.  In particular `1`, `1.0`, `1.00`, `01`,
+`"1"` all get different texts although some denote the same number – nothing is merged by the numeric reading. -/
+theorem value_text_injective (a b : Bytes) : valueText a = valueText b ↔ canonVal a = canonVal b :=
+  valueText_eq_iff a b
+
+/-- **The view is a complete invariant of what it shows – it can serve as an aggregation key.**  Two lines matched
+by the same extractor (same name table, in any two iteration orders `σ₁ σ₂` of its map) get the SAME view text
+if and only if every group the view shows captured the same text in both, up to the letter case of the words
+`true` / `false`: all named groups for `{.}`, all numbered groups for `{#}` (a group that is absent and one that
+matched the empty text are the same), both for `{.#}`.  `⇐` is determinism (same match ⇒ same key, whatever the
+map order), `⇒` says no two different matches are ever merged under one key except by that letter case.
+`sameShown` is the decidable form of the right-hand side (the correspondence op `keyeq` compares it with the
+equality of the two texts the real `GetKey` returns). -/
+theorem json_key_iff (named numbered : Bool) (order σ₁ σ₂ : List (Bytes × Int)) (i1 i2 : List Int)
+    (l1 l2 out1 out2 : Bytes) (hσ₁ : σ₁.Perm order) (hσ₂ : σ₂.Perm order)
+    (t1 : GoTyped order i1) (t2 : GoTyped order i2) (hnd : (order.map (·.1)).Nodup)
+    (h1 : json named numbered σ₁ i1 l1 = .ok out1) (h2 : json named numbered σ₂ i2 l2 = .ok out2) :
+    (out1 = out2 ↔ sameShown named numbered order i1 l1 i2 l2 = true) ∧
+    (sameShown named numbered order i1 l1 i2 l2 = true ↔
+      ((named = true → ∀ p ∈ order, canonVal (capture i1 l1 p.2) = canonVal (capture i2 l2 p.2)) ∧
+       (numbered = true → ∀ i : Nat, canonVal (capture i1 l1 (i : Nat)) = canonVal (capture i2 l2 (i : Nat))))) := by
+  refine ⟨?_, sameShown_iff named numbered order i1 i2 l1 l2⟩
+  have hnd1 : (σ₁.map (·.1)).Nodup := (hσ₁.map (·.1)).nodup_iff.mpr hnd
+  have hnd2 : (σ₂.map (·.1)).Nodup := (hσ₂.map (·.1)).nodup_iff.mpr hnd
+  rw [json_deterministic named numbered σ₁ order i1 l1 hσ₁ hnd1] at h1
+  rw [json_deterministic named numbered σ₂ order i2 l2 hσ₂ hnd2] at h2
+  rw [json_ok_text named numbered order i1 l1 out1 t1 h1, json_ok_text named numbered order i2 l2 out2 t2 h2,
+    sameShown_iff, objText_eq_iff]
+  exact viewMembers_canon_iff named numbered order i1 i2 l1 l2 hnd
+
+/-- The same for `rare expression` (every value a string, nothing inferred): the text determines the members
+EXACTLY – names and values, byte for byte.  (Not the arguments: `-d x` and `-k 0=x` both give `{"0": "x"}`.) -/
+theorem special_text_iff_members (d1 d2 : List Bytes) (o1 o2 : List (Bytes × Bytes)) :
+    buildSpecialKeyJson d1 o1 = buildSpecialKeyJson d2 o2 ↔ specialMembers d1 o1 = specialMembers d2 o2 := by
+  rw [special_text, special_text]
+  exact ⟨objText_string_inj _ _, fun h => by rw [h]⟩
+
+/-- **`rare expression '{.}'` prints the view, whatever `-k` says.**  The emulated keys are assigned after the
+`-k` pairs went into the map, so `-k .=x`, `-k '#=y'`, `-k .#=z` cannot replace a view; `{.}` `{#}` `{.#}` `{#.}`
+print `buildSpecialKeyJson` of the `-k` pairs / the `-d` values / both, unchanged by `smartFormatResult` (with
+or without `--raw`), followed by a line feed unless `-n`. -/
+theorem expression_prints_view (raw skipNewline : Bool) (data kvs : List Bytes) (σ : List (Bytes × Bytes))
+    (key : Bytes) (f : Bool × Bool) (h : viewFlags key = some f) :
+    expressionPrints raw skipNewline data kvs σ key =
+      buildSpecialKeyJson (if f.2 then data else []) (if f.1 then σ else []) ++ (if skipNewline then [] else [0x0a]) ∧
+    some (buildSpecialKeyJson (if f.2 then data else []) (if f.1 then σ else [])) = expressionJsonKey key data σ := by
+  have hp : printable (buildSpecialKeyJson (if f.2 then data else []) (if f.1 then σ else [])) = true := by
+    rw [special_text]; exact objText_printable stringR stringText_printable _
+  refine ⟨?_, ?_⟩
+  · unfold expressionPrints
+    simp only [expressionKeys_view data kvs σ key f h]
+    cases raw with
+    | true => rfl
+    | false => simp only [Bool.false_eq_true, if_false, smartFormat_of_printable _ hp]
+  · rw [(expression_keys key data σ).1, h]; rfl
+
+/-! non-vacuity of the round-4b theorems -/
+example : canonVal (lit "tRuE") = litTrue ∧ canonVal (lit "FALSE") = litFalse ∧ canonVal (lit "truee") = lit "truee" ∧
+    canonVal (lit "007") = lit "007" ∧ canonVal [] = [] := by decide
+example : valueText (lit "1") ≠ valueText (lit "1.0") ∧ valueText (lit "1") ≠ valueText (lit "\"1\"") ∧
+    valueText (lit "TRUE") = valueText (lit "true") ∧ valueText (lit "true ") ≠ valueText (lit "true") := by decide
+/-- two different lines, same key: only the case of a boolean word differs; and a pair that differs -/
+example : sameShown true true [(lit "ok", 1)] [0, 6, 0, 4, 4, 6] (lit "TRUE 7") [0, 6, 0, 4, 4, 6] (lit "true 7") = false ∧
+    sameShown true false [(lit "ok", 1)] [0, 6, 0, 4, 4, 6] (lit "TRUE 7") [0, 6, 0, 4, 4, 6] (lit "true 7") = true ∧
+    sameShown false true [] [0, 1, -1, -1] (lit "a") [0, 1] (lit "a") = true ∧
+    sameShown false true [] [0, 1] (lit "a") [0, 1] (lit "b") = false := by decide
+example : smartFormatResult [0x61, 0, 0x62] = lit "[a, b]" ∧ smartFormatResult (lit "{\"0\": \"a\\u0000b\"}") = lit "{\"0\": \"a\\u0000b\"}" ∧
+    splitSep arraySeparator [0x61, 0, 0, 0x62] = [[0x61], [], [0x62]] ∧ makeArray [[0x61], [], [0x62]] = [0x61, 0, 0, 0x62] := by
+  decide
+example : expressionPrints false false [lit "d"] [lit ".=x", lit "k=v"] (parseKeyValuesIntoMap [lit ".=x", lit "k=v"]) (lit ".")
+    = lit "{\".\": \"x\", \"k\": \"v\"}\n" ∧
+    expressionPrints false true [lit "a", lit "b"] [] [] (lit "@") = lit "[a, b]" ∧
+    expressionPrints true true [lit "a", lit "b"] [] [] (lit "@") = [0x61, 0, 0x62] ∧
+    expressionPrints false true [] [lit "src=me"] (parseKeyValuesIntoMap [lit "src=me"]) (lit "src") = lit "<args>" := by
+  decide +kernel
 
 end Rare.C16
